@@ -66,7 +66,8 @@ Definition heap_unproven : list string := [
   "deepali/losses/functional.py:elementwise_loss";
   "deepali/losses/functional.py:grad_loss";
   "deepali/losses/functional.py:ssd_loss";
-  "deepali/losses/functional.py:tversky_index"].
+  "deepali/losses/functional.py:tversky_index";
+  "deepali/losses/functional.py:inverse_consistency_loss"].
 
 (* ---- what Model/ObjGraph.v transcribes ----
    pin_copied_containers -> shallow_copy: _buffers (and _modules) dicts copied, _parameters dict SHARED
